@@ -483,6 +483,11 @@ def job_dtypes_estimator(ctx, ename):
                     _twin_dtype(ctx, f'{ename}', f'frame={frame} dtype={dt} sign={sgn}', refs,
                                 lambda: est.batch(cp(Xa), None if est.tilt_only else cp(Xm), dip, frame),
                                 lambda i: est.single(cr(Xa, i), None if est.tilt_only else cr(Xm, i), dip, frame), tol, signfree=signfree)
+                    if est.estimate is not None:
+                        # the third route, estimate(sample) on a data-less object, against the N-sample constructor
+                        _twin_dtype(ctx, f'{ename} [N samples vs estimate()]', f'frame={frame} dtype={dt} sign={sgn}', refs,
+                                    lambda: est.batch(cp(Xa), None if est.tilt_only else cp(Xm), dip, frame),
+                                    lambda i: est.estimate(cr(Xa, i), None if est.tilt_only else cr(Xm, i), dip, frame), tol, signfree=signfree)
                     ctx.seen(('dtype-est', ename, frame, dt, sgn)); ctx.cls('dtype:estimator samples')
     finally:
         np.random.random = real_random
